@@ -159,7 +159,7 @@ def run_model(ctx, module, cfg=None, workers=NCPU, timeout=1500, extra=(), expec
 
 def event_key(ev):
     """Stable identity of a call: the event without results/probes."""
-    drop = {"probes", "gexp", "hints", "nontriv", "sol", "sol2same", "argsSame", "out", "ok", "uni", "chk", "res", "res2same", "res2", "det", "a2", "a2int", "b", "pip", "removed", "vars"}
+    drop = {"probes", "gexp", "hints", "nontriv", "sol", "sol2same", "argsSame", "out", "ok", "uni", "chk", "res", "res2same", "res2", "det", "a2", "a2int", "b", "pip", "removed", "vars", "i", "u", "d", "x", "d2", "us", "uc", "us2", "nverts"}
     core = {k: v for k, v in ev.items() if k not in drop and not k.startswith("r_")}
     return hashlib.sha1(json.dumps(core, sort_keys=True).encode()).hexdigest()[:16]
 
@@ -331,6 +331,110 @@ def replay_event(ctx, ev, module="Trace"):
     return ok, cl
 
 
+def generate_histories(ctx, module, cfg_text, workers=NCPU, timeout=1500, extra=()):
+    """Model-check (or simulate) a bounded model that prints <<"HIST", json>> lines; returns the file
+    with those lines. The TLC run itself also checks the model's invariants."""
+    d = spec_dir(ctx, "gen-" + module)
+    cfgname = "Gen_%s.cfg" % module
+    with open(os.path.join(d, cfgname), "w") as f:
+        f.write(cfg_text)
+    rc, out = tlc(d, module, cfg=cfgname, workers=workers, timeout=timeout, extra=extra, xmx="8g")
+    if "Error:" in out and "Deadlock" not in out:
+        raise ToolError("model %s failed (rc=%d):\n%s" % (module, rc, out[-3000:]))
+    sm = RE_STATES.findall(out)
+    st, di = (int(sm[-1][0]), int(sm[-1][1])) if sm else (0, 0)
+    ctx.states += st
+    ctx.transitions += st
+    ctx.model_runs.append({"module": module, "cfg": cfg_text.replace("\n", "; "), "states_generated": st, "distinct": di})
+    hist = os.path.join(ctx.work, "hist-%s.txt" % module)
+    lines = sorted(set(l for l in out.splitlines() if l.startswith('<<"HIST"')))
+    with open(hist, "w") as f:
+        f.write("\n".join(lines) + "\n")
+    return hist, len(lines)
+
+
+def replay_histories(ctx, histfile, subcmd, module="Trace", chunks=NCPU, limit=None, seed_shuffle=None):
+    """Replay TLC-generated behaviours against the real code (harness <subcmd>), validate the
+    recorded replays with the trace specification, triage rejections by re-running the history."""
+    import random
+    lines = [l for l in open(histfile).read().splitlines() if l.strip()]
+    if seed_shuffle is not None:
+        random.Random(seed_shuffle).shuffle(lines)
+    if limit:
+        lines = lines[:limit]
+    per = max(1, (len(lines) + chunks - 1) // chunks)
+    jobs = [lines[i:i + per] for i in range(0, len(lines), per)]
+
+    def one(k):
+        hf = os.path.join(ctx.work, "h-%d.txt" % k)
+        with open(hf, "w") as f:
+            f.write("\n".join(jobs[k]) + "\n")
+        tf = os.path.join(ctx.work, "h-%d.ndjson" % k)
+        run_harness(ctx, [subcmd, "-in", hf, "-out", tf])
+        res = validate_trace(ctx, "hv-%d" % k, tf, module=module)
+        res["file"] = tf
+        return res
+
+    bad = []
+    with cf.ThreadPoolExecutor(max_workers=NCPU) as ex:
+        for r in ex.map(one, range(len(jobs))):
+            ctx.states += r["states"]
+            ctx.transitions += max(0, r["states"] - 1)
+            ctx.events += r["n"]
+            evs = [json.loads(l) for l in open(r["file"])]
+            ctx.traces += sum(1 for e in evs if e.get("ev") == "Reset")
+            ctx.nontrivial += sum(1 for e in evs if e.get("nontriv"))
+            if len(ctx.samples) < 2 and evs:
+                ctx.samples.append({"history": evs[0].get("hist"), "events": [trim_sample(e) for e in evs[1:6]]})
+            for idx in r["rejected"]:
+                j = idx - 1
+                while j >= 0 and evs[j].get("ev") != "Reset":
+                    j -= 1
+                bad.append((evs[j].get("hist"), r["fails"].get(idx, ["?"])))
+    # triage: re-run each offending history alone
+    seen = set()
+    for hist, clauses in bad:
+        if hist in seen:
+            continue
+        seen.add(hist)
+        if any(c in TOOL_CLAUSES for c in clauses):
+            raise ToolError("tool-level rejection %s in history %s" % (clauses, hist))
+        ok, cl = replay_one_history(ctx, hist, subcmd, module)
+        if ok:
+            raise ToolError("rejection in history %s did not reproduce" % hist)
+        kf = None
+        for f in load_known().get("findings", []):
+            if ctx.prop in f.get("properties", [f.get("property")]) and f.get("history") == hist:
+                kf = f
+        if kf:
+            note_known(ctx, kf)
+            continue
+        rdir = os.path.join(ROOT, "replays", ctx.prop)
+        os.makedirs(rdir, exist_ok=True)
+        path = os.path.join(rdir, hashlib.sha1(hist.encode()).hexdigest()[:16] + ".hist.json")
+        with open(path, "w") as fo:
+            json.dump({"history": hist, "subcmd": subcmd, "module": module}, fo)
+        ctx.violations.append((",".join(cl), path))
+        log("VIOLATION property=%s replay=%s clause=%s" % (ctx.prop, path, ",".join(cl)))
+    return len(lines)
+
+
+def replay_one_history(ctx, hist, subcmd, module="Trace"):
+    tag = hashlib.sha1(hist.encode()).hexdigest()[:12]
+    hf = os.path.join(ctx.work, "one-%s.txt" % tag)
+    with open(hf, "w") as f:
+        f.write('<<"HIST", %s>>\n' % json.dumps(hist))
+    tf = os.path.join(ctx.work, "one-%s.ndjson" % tag)
+    run_harness(ctx, [subcmd, "-in", hf, "-out", tf])
+    res = validate_trace(ctx, "one-" + tag, tf, module=module)
+    cl = []
+    for i in res["rejected"]:
+        for c in res["fails"].get(i, ["?"]):
+            if c not in cl:
+                cl.append(c)
+    return (not res["rejected"]), cl
+
+
 def write_evidence(ctx, level="model_checking", rule="", assumptions=()):
     ev = {
         "property_id": ctx.prop,
@@ -413,6 +517,8 @@ def main(argv):
 
 
 def default_replay(ctx, ev):
+    if "history" in ev:
+        return replay_one_history(ctx, ev["history"], ev.get("subcmd", "replay-life"), ev.get("module", "Trace"))
     return replay_event(ctx, ev, "Trace")
 
 
